@@ -212,6 +212,24 @@ def param_programs():
         return top
     yield ("params/dotted-generator-names", dotted_generator_names)
 
+    # parameters NAMED like the arguments of the library's own call machinery, or like Python / dict attributes
+    def signature_like_param_names():
+        m = h.Module(name="PSig")
+        m.a, m.b = h.Signal(), h.Signal()
+        E = h.ExternalModule(name="EXTSIG", port_list=[h.Inout(name="p"), h.Inout(name="n")], paramtype=dict, desc="", domain="dom")
+        for k, names in enumerate((("arg",), ("self",), ("callee",), ("gain", "arg"), ("params", "kwargs", "name"), ("cls", "items", "keys"),
+                                   ("module", "of", "conns"))):
+            m.add(E({n: j + k for j, n in enumerate(names)})(p=m.a, n=m.b), name=f"e{k}")
+
+        @h.paramclass
+        class WithArg:
+            arg = h.Param(dtype=int, desc="a field called arg", default=1)
+            callee = h.Param(dtype=int, desc="callee", default=2)
+        E2 = h.ExternalModule(name="EXTSIG2", port_list=[h.Inout(name="p"), h.Inout(name="n")], paramtype=WithArg, desc="", domain="dom")
+        m.f = E2(WithArg(arg=5))(p=m.a, n=m.b)
+        return m
+    yield ("params/signature-like-parameter-names", signature_like_param_names)
+
     # modules NAMED with dots by hand: doubled, leading and trailing dots, a lone dot
     def dotted_module_names():
         top = h.Module(name="DottedNamesTop")
